@@ -60,7 +60,11 @@ var (
 	sortDecls []string
 )
 
+var declMu sync.RWMutex // declarations are added while variants are built (one at a time) and read by every worker
+
 func declareFun(name, decl string, deps ...string) {
+	declMu.Lock()
+	defer declMu.Unlock()
 	if _, ok := funDecls[name]; ok {
 		return
 	}
@@ -236,6 +240,8 @@ func relevantHyps(hyps []*Term, goal *Term) []*Term {
 }
 
 func smtFile(hyps []*Term, goal *Term, opts string, getModel bool, extra string) string {
+	declMu.RLock()
+	defer declMu.RUnlock()
 	var b bytes.Buffer
 	hyps = relevantHyps(hyps, goal)
 	b.WriteString(opts)
